@@ -299,7 +299,7 @@ func vForward(requestSide bool) {
 		respCT = []string{"", "text/event-stream", "application/grpc"}[verifChoose("resp.contentType", 3)]
 	}
 	vOutcome = func(int) (*http.Response, error) {
-		h := http.Header{"X-Backend": []string{"b"}, "Vary": []string{"Origin"}}
+		h := http.Header{"X-Backend": []string{"b"}, "Vary": []string{"Origin"}, "Etag": []string{"\"abc\""}}
 		if backendCE != "" {
 			h.Set("Content-Encoding", backendCE)
 		}
@@ -394,6 +394,8 @@ func vForward(requestSide bool) {
 		}
 	}
 	verifAssert(keptVary, "client-gets-backend-headers")
+	// validators and other end-to-end headers arrive as the backend sent them, compressed or not
+	verifAssert(resp.HTTPHeader().Get("Etag") == "\"abc\"", "client-gets-backend-headers")
 	got, _ := io.ReadAll(resp.GetPayload())
 	// the codings the client is told to undo: the backend's own, plus gzip last iff the proxy
 	// compressed - undoing them in reverse order must give back the backend's content
